@@ -35,6 +35,9 @@ import (
 	"github.com/google/martian/v3/trafficshape"
 )
 
+// errClose ends the connection's handler loop, which closes the connection. It
+// is also what a handler returns once a modifier has hijacked the session: the
+// proxy must not read from or write to the connection again.
 var errClose = errors.New("closing connection")
 var noop = Noop("martian")
 
@@ -305,7 +308,7 @@ func (p *Proxy) handleConnectRequest(ctx *Context, req *http.Request, session *S
 	}
 	if session.Hijacked() {
 		log.Debugf("martian: connection hijacked by request modifier")
-		return nil
+		return errClose
 	}
 
 	if p.mitm != nil {
@@ -319,7 +322,7 @@ func (p *Proxy) handleConnectRequest(ctx *Context, req *http.Request, session *S
 		}
 		if session.Hijacked() {
 			log.Infof("martian: connection hijacked by response modifier")
-			return nil
+			return errClose
 		}
 
 		if err := res.Write(brw); err != nil {
@@ -385,7 +388,7 @@ func (p *Proxy) handleConnectRequest(ctx *Context, req *http.Request, session *S
 		}
 		if session.Hijacked() {
 			log.Infof("martian: connection hijacked by response modifier")
-			return nil
+			return errClose
 		}
 
 		if err := res.Write(brw); err != nil {
@@ -406,7 +409,7 @@ func (p *Proxy) handleConnectRequest(ctx *Context, req *http.Request, session *S
 	}
 	if session.Hijacked() {
 		log.Infof("martian: connection hijacked by response modifier")
-		return nil
+		return errClose
 	}
 
 	res.ContentLength = -1
@@ -499,7 +502,7 @@ func (p *Proxy) handle(ctx *Context, conn net.Conn, brw *bufio.ReadWriter) error
 		proxyutil.Warning(req.Header, err)
 	}
 	if session.Hijacked() {
-		return nil
+		return errClose
 	}
 
 	// perform the HTTP roundtrip
@@ -521,7 +524,7 @@ func (p *Proxy) handle(ctx *Context, conn net.Conn, brw *bufio.ReadWriter) error
 	}
 	if session.Hijacked() {
 		log.Infof("martian: connection hijacked by response modifier")
-		return nil
+		return errClose
 	}
 
 	var closing error
